@@ -72,8 +72,12 @@ def clauses(v: dict, payload_ref: Optional[bytes], data: bytes, base: int = 0) -
         return [{"clause": "shape", "detail": v["shape_error"]}]
     p0, p1 = v["payload"]
     if payload_ref is not None and data[p0 - base:p1 - base] != payload_ref:
+        got = data[p0 - base:p1 - base]
+        n = min(len(got), len(payload_ref))
+        fd = next((i for i in range(n) if got[i] != payload_ref[i]), n)
         out.append({"clause": "mdat", "detail": f"payload of {p1 - p0} bytes differs from the stored "
-                                                 f"payload of {len(payload_ref)} bytes"})
+                                                 f"payload of {len(payload_ref)} bytes (whole payload compared; "
+                                                 f"first differing offset {fd})"})
     if v["data_start"] != p0:
         out.append({"clause": "trun-offset",
                     "detail": f"base {v['base']} + data_offset {v['trun']['data_offset']} = {v['data_start']}, "
